@@ -83,6 +83,7 @@ func (c Config) XRefStream() bool { return c.VIdx >= 5 && !c.HR }
 // Plan selects the special situations a program is steered into.
 type Plan struct {
 	Sparse         bool // a Put under a high, sparse object number
+	SparseHigh     bool // ... beyond 65535 (wider than any offset of a small file), followed by a WriteCompressed
 	DeferredStream bool // Put of a *Stream while a stream is open
 	PreFilter      bool // OpenStream with /Filter already in the dictionary and filters given
 	Invalid        bool // one operation the Writer must refuse
@@ -165,11 +166,12 @@ func (nopCloser) Close() error { return nil }
 
 var reLenObj = regexp.MustCompile(`(\d+) 0 obj\n\d+\nendobj\n\n?$`)
 
-// big reports whether the stream that has just been closed left the
-// 1024-byte buffering mode: on a non-seekable sink its /Length is then an
-// indirect integer object, the last thing written.  (On a seekable sink the
-// difference is not observable in what a reader returns, and for a stream
-// without filters and encryption the model computes it.)
+// big reports whether the object stream that WriteCompressed has just written
+// left the 1024-byte buffering mode: on a non-seekable sink its /Length is then
+// an indirect integer object, the last thing written.  (On a seekable sink the
+// difference is not observable in what a reader returns.)  For streams whose
+// data the harness knows, the flag is computed instead (filter output length,
+// cipher length formula).
 func (x *runner) big() int {
 	if x.cfg.Seek {
 		return 0
@@ -230,10 +232,27 @@ func (x *runner) alloc() (pdf.Reference, bool) {
 	return ref, true
 }
 
-func wirePObj(o pdf.Object) string {
+// encLen is the number of bytes the document cipher makes of n bytes of stream
+// data: RC4 keeps the length, AES-CBC adds a 16-byte IV and PKCS#7 padding.
+func (c Config) encLen(n int) int {
+	switch c.Cipher() {
+	case 3, 4:
+		return 16 + (n/16+1)*16
+	}
+	return n
+}
+
+// wirePObj: a *Stream carries the flag "its encoded data reaches 1024 bytes",
+// which the model needs when the Put is deferred (a *Stream has no filters of
+// its own, so only the cipher changes the length).
+func (x *runner) wirePObj(o pdf.Object) string {
 	if s, ok := o.(*pdf.Stream); ok {
 		data, _ := io.ReadAll(s.NewReader())
-		return "s " + WireString(s.Dict, false) + " " + hx(data)
+		big := 0
+		if x.cfg.encLen(len(data)) >= 1024 {
+			big = 1
+		}
+		return fmt.Sprintf("s %s %s %d", WireString(s.Dict, false), hx(data), big)
 	}
 	return "o " + WireString(o, false)
 }
@@ -341,14 +360,15 @@ func stripStreamKeys(d pdf.Dict) pdf.Dict {
 // put performs Put(ref, o).  During an open stream the Put is deferred.
 func (x *runner) put(ref pdf.Reference, o pdf.Object) bool {
 	x.remember(o)
-	x.desc("Put(%v, %s)", ref, wirePObj(o))
+	x.desc("Put(%v, %s)", ref, x.wirePObj(o))
 	_, isStream := o.(*pdf.Stream)
-	if isStream && x.inStream {
-		x.res.Provoked = true
-	}
 	snap := snapshot(o)
 	cls, text := x.call(func() error { return x.w.Put(ref, o) })
-	x.tok("U %d %d %s %d", ref.Number(), ref.Generation(), wirePObj(o), x.big())
+	pbig := 0
+	if stm, ok := o.(*pdf.Stream); ok && x.cfg.encLen(int(stm.Length())) >= 1024 {
+		pbig = 1
+	}
+	x.tok("U %d %d %s %d", ref.Number(), ref.Generation(), x.wirePObj(o), pbig)
 	if cls == "" {
 		x.noteWritten(ref, snap)
 		if _, s := o.(*pdf.Stream); !s {
@@ -437,6 +457,11 @@ func (x *runner) stream(plan *Plan) bool {
 		out := append([]byte{}, buf.Bytes()...)
 		etoks = append(etoks, hx([]byte(name))+" "+hx(cur)+" "+hx(out))
 		cur = out
+	}
+	// whether the encoded data reaches 1024 bytes: the filters' output is known, the cipher's length is a formula
+	sbig := 0
+	if x.cfg.encLen(len(cur)) >= 1024 {
+		sbig = 1
 	}
 	x.tok("O %d %d %s %d %s E %d %s", ref.Number(), ref.Generation(), WireString(d, false), len(fs), strings.Join(ftoks, " "), len(etoks), strings.Join(etoks, " "))
 	x.desc("OpenStream(%v, %s, %d filters)", ref, WireString(d, false), len(fs))
@@ -531,7 +556,6 @@ func (x *runner) stream(plan *Plan) bool {
 		}
 		if plan.DeferredStream && c == 0 {
 			plan.DeferredStream = false
-			x.res.Provoked = true
 			dref, ok := x.alloc()
 			if !ok {
 				return false
@@ -556,7 +580,7 @@ func (x *runner) stream(plan *Plan) bool {
 	if cls == "other" && x.res.DeferredStreamAccepted {
 		x.res.DeferredCloseFailed = true
 	}
-	x.tok("S %d", x.big())
+	x.tok("S %d", sbig)
 	return x.step(cls, text)
 }
 
@@ -605,7 +629,7 @@ func (x *runner) compressed(plan *Plan) bool {
 	fmt.Fprintf(&sb, " %d", len(objs))
 	for _, o := range objs {
 		x.remember(o)
-		sb.WriteString(" " + wirePObj(o))
+		sb.WriteString(" " + x.wirePObj(o))
 	}
 	x.desc("WriteCompressed(%v, %d objects)", refs, len(objs))
 	var snaps []*Want
@@ -668,8 +692,14 @@ func Run(r *rand.Rand, cfg Config, plan Plan) *Result {
 	if plan.Sparse {
 		res.Sparse = true
 		ref := pdf.NewReference(uint32(15000+r.IntN(3000)), uint16(r.IntN(4)))
+		if plan.SparseHigh {
+			ref = pdf.NewReference(uint32(66000+r.IntN(5000)), uint16(r.IntN(4)))
+		}
 		res.UserRefs = append(res.UserRefs, ref)
 		alive = x.put(ref, GenObj(r, 0, nil))
+		if alive && plan.SparseHigh {
+			alive = x.compressed(&plan)
+		}
 	}
 	for i := 0; alive && i < maxOps; i++ {
 		switch k := r.IntN(20); {
